@@ -38,14 +38,61 @@ type ClauseResult struct {
 	failed   *Oblig
 }
 
+type Witness struct {
+	Kind string `json:"kind"` // go-test: overlay an in-package test that asserts the property; it fails while the defect exists
+	Pkg  string `json:"pkg,omitempty"`
+	File string `json:"file,omitempty"`
+	Run  string `json:"run,omitempty"`
+	Cmd  string `json:"cmd,omitempty"` // kind "cmd": shell command, exit status != 0 while the defect exists
+}
+
 type KnownFinding struct {
-	Property    string `json:"property"`
-	Obligation  string `json:"obligation"`
-	Relativized string `json:"relativized,omitempty"`
-	What        string `json:"what"`
-	Witness     string `json:"witness,omitempty"`
-	Status      string `json:"status"`
-	Commit      string `json:"commit,omitempty"`
+	Property    string   `json:"property"`
+	Obligation  string   `json:"obligation"`
+	Relativized string   `json:"relativized,omitempty"`
+	What        string   `json:"what"`
+	Witness     *Witness `json:"witness,omitempty"`
+	Status      string   `json:"status"`
+	Commit      string   `json:"commit,omitempty"`
+	Tag         string   `json:"tag,omitempty"`
+}
+
+// runWitness replays a recorded witness against the real code. Returns (reproduced, output).
+func runWitness(w *Witness) (bool, string) {
+	if w == nil {
+		return false, "no witness recorded"
+	}
+	switch w.Kind {
+	case "go-test":
+		src := w.File
+		if !filepath.IsAbs(src) {
+			src = filepath.Join(verifDir, src)
+		}
+		pkgDir := filepath.Join(repoDir, strings.TrimPrefix(w.Pkg, "./"))
+		ov := map[string]any{"Replace": map[string]string{filepath.Join(pkgDir, "zz_verif_witness_test.go"): src}}
+		data, _ := json.Marshal(ov)
+		ovFile := filepath.Join(scratchDir, "overlay-"+unsafeName.ReplaceAllString(w.Run, "_")+".json")
+		os.WriteFile(ovFile, data, 0o644)
+		cmd := exec.Command("go", "test", "-overlay", ovFile, "-vet=off", "-timeout", "120s", "-count=1", "-run", "^"+w.Run+"$", w.Pkg)
+		cmd.Dir = repoDir
+		cmd.Env = append(os.Environ(), "GOFLAGS=-mod=mod", "GOPROXY=off")
+		out, err := cmd.CombinedOutput()
+		o := string(out)
+		if err == nil {
+			return false, truncate(o, 4000)
+		}
+		if strings.Contains(o, "--- FAIL") {
+			return true, truncate(o, 4000)
+		}
+		return false, "witness could not be run: " + truncate(o, 4000)
+	case "cmd":
+		cmd := exec.Command("sh", "-c", w.Cmd)
+		cmd.Dir = verifDir
+		cmd.Env = append(os.Environ(), "GOFLAGS=-mod=mod", "GOPROXY=off", "VERIF_SCRATCH="+scratchDir)
+		out, err := cmd.CombinedOutput()
+		return err != nil, truncate(string(out), 4000)
+	}
+	return false, "unknown witness kind"
 }
 
 func main() {
@@ -248,7 +295,7 @@ func cmdCheck(args []string) int {
 		go func() {
 			defer wg.Done()
 			defer func() { <-sem }()
-			res := Solve(j.q, timeoutS, false)
+			res := solveSplit(j.q, timeoutS)
 			j.o.Res = &res
 		}()
 	}
@@ -368,7 +415,12 @@ func cmdCheck(args []string) int {
 		}
 		// known finding?
 		if kf := known[n]; kf != nil && kf.Status == "open" {
-			knownLines = append(knownLines, fmt.Sprintf("KNOWN-FINDING: property=%s %s [%s]", prop, kf.What, n))
+			rep, _ := runWitness(kf.Witness)
+			w := "witness replayed on the real code: reproduced"
+			if !rep {
+				w = "witness not reproduced"
+			}
+			knownLines = append(knownLines, fmt.Sprintf("KNOWN-FINDING: property=%s %s [%s; %s; %s]", prop, kf.What, kf.Tag, n, w))
 			continue
 		}
 		undecided = append(undecided, n+" ("+cr.Verdict+")")
@@ -593,4 +645,31 @@ func packagesFor(prop string) []string {
 		return []string{"./src/...", "./cmd/kddp/..."}
 	}
 	return []string{"./src/ast/...", "./src/ddperror/...", "./src/ddppath/...", "./src/ddptypes/...", "./src/parser/...", "./src/scanner/...", "./src/token/..."}
+}
+
+// solveSplit proves a conjunctive goal conjunct by conjunct (smaller, more stable queries).
+func solveSplit(q *Query, timeoutS int) SolverResult {
+	if q.Goal == nil || q.IsCover || !(q.Goal.Kind == KApp && q.Goal.Op == "and") || len(q.Goal.Args) > 12 {
+		return Solve(q, timeoutS, false)
+	}
+	// first try the whole goal quickly
+	whole := Solve(q, 2, false)
+	if whole.Verdict == "unsat" {
+		return whole
+	}
+	var total SolverResult
+	total.Verdict = "unsat"
+	total.All = map[string]string{}
+	for i, c := range q.Goal.Args {
+		sub := &Query{Name: fmt.Sprintf("%s [conjunct %d]", q.Name, i), Axioms: q.Axioms, Hyps: q.Hyps, Goal: c}
+		r := Solve(sub, timeoutS, false)
+		total.TimeS += r.TimeS
+		total.Solver = r.Solver
+		if r.Verdict != "unsat" {
+			r.Output = fmt.Sprintf("conjunct %d: %s", i, r.Output)
+			r.TimeS = total.TimeS
+			return r
+		}
+	}
+	return total
 }
